@@ -250,3 +250,223 @@ Definition u8_parse (s : bytes) : option N :=
       else parse_digits 0 s
   end.
 Definition u8_display (n : N) : bytes := dec_of_N n.
+
+(** ---- base64 0.22 general-purpose engine ----
+    [url = true]: URL-safe alphabet; [pad = true]: the PAD config (encode with '=',
+    decode with [DecodePaddingMode::RequireCanonical]); [pad = false]: NO_PAD (no '=' on
+    encode, [RequireNone] on decode). [decode_allow_trailing_bits] is false in both.
+    server_fn uses URL_SAFE = (true, true) for the URL form of an error and
+    STANDARD_NO_PAD = (false, false) for [FormatType::into_encoded_string]. *)
+Definition L_Invalid_symbol : bytes := [73; 110; 118; 97; 108; 105; 100; 32; 115; 121; 109; 98; 111; 108; 32].  (* "Invalid symbol " *)
+Definition L_offset : bytes := [44; 32; 111; 102; 102; 115; 101; 116; 32].  (* ", offset " *)
+Definition L_dot : bytes := [46].  (* "." *)
+Definition L_Invalid_input_length : bytes := [73; 110; 118; 97; 108; 105; 100; 32; 105; 110; 112; 117; 116; 32; 108; 101; 110; 103; 116; 104; 58; 32].  (* "Invalid input length: " *)
+Definition L_Invalid_last_symbol : bytes := [73; 110; 118; 97; 108; 105; 100; 32; 108; 97; 115; 116; 32; 115; 121; 109; 98; 111; 108; 32].  (* "Invalid last symbol " *)
+Definition L_Invalid_padding : bytes := [73; 110; 118; 97; 108; 105; 100; 32; 112; 97; 100; 100; 105; 110; 103].  (* "Invalid padding" *)
+Definition L_path : bytes := [95; 95; 112; 97; 116; 104].  (* "__path" *)
+Definition L_err : bytes := [95; 95; 101; 114; 114].  (* "__err" *)
+
+Definition b64_sym (url : bool) (v : N) : N :=
+  if v <? 26 then 65 + v
+  else if v <? 52 then 97 + (v - 26)
+  else if v <? 62 then 48 + (v - 52)
+  else if v =? 62 then (if url then 45 else 43)
+  else (if url then 95 else 47).
+
+Definition b64_val (url : bool) (b : N) : option N :=
+  if is_upper b then Some (b - 65)
+  else if is_lower b then Some (b - 97 + 26)
+  else if is_digit b then Some (b - 48 + 52)
+  else if b =? (if url then 45 else 43) then Some 62
+  else if b =? (if url then 95 else 47) then Some 63
+  else None.
+
+Fixpoint b64_encode (url pad : bool) (l : bytes) : bytes :=
+  match l with
+  | a :: b :: c :: t =>
+      b64_sym url (a / 4) :: b64_sym url ((a mod 4) * 16 + b / 16)
+      :: b64_sym url ((b mod 16) * 4 + c / 64) :: b64_sym url (c mod 64)
+      :: b64_encode url pad t
+  | [a; b] =>
+      [b64_sym url (a / 4); b64_sym url ((a mod 4) * 16 + b / 16); b64_sym url ((b mod 16) * 4)]
+      ++ (if pad then [61] else [])
+  | [a] =>
+      [b64_sym url (a / 4); b64_sym url ((a mod 4) * 16)] ++ (if pad then [61; 61] else [])
+  | [] => []
+  end.
+
+Inductive b64_error :=
+| InvalidByte (off : nat) (b : N)
+| InvalidLength (n : nat)
+| InvalidLastSymbol (off : nat) (b : N)
+| InvalidPadding.
+
+(** [impl Display for DecodeError] *)
+Definition b64_error_display (e : b64_error) : bytes :=
+  match e with
+  | InvalidByte off b => L_Invalid_symbol ++ dec_of_N b ++ L_offset ++ dec_of_nat off ++ L_dot
+  | InvalidLength n => L_Invalid_input_length ++ dec_of_nat n
+  | InvalidLastSymbol off b => L_Invalid_last_symbol ++ dec_of_N b ++ L_offset ++ dec_of_nat off ++ L_dot
+  | InvalidPadding => L_Invalid_padding
+  end.
+
+(** [decode_chunk_4] / [decode_chunk_8]: a complete non-terminal quad; the first symbol
+    that is not in the alphabet ('=' included) is reported with its offset *)
+Definition dec_quad (url : bool) (off : nat) (a b c d : N) : bytes + b64_error :=
+  match b64_val url a with
+  | None => inr (InvalidByte off a)
+  | Some m0 =>
+  match b64_val url b with
+  | None => inr (InvalidByte (off + 1) b)
+  | Some m1 =>
+  match b64_val url c with
+  | None => inr (InvalidByte (off + 2) c)
+  | Some m2 =>
+  match b64_val url d with
+  | None => inr (InvalidByte (off + 3) d)
+  | Some m3 => inl [m0 * 4 + m1 / 16; (m1 mod 16) * 16 + m2 / 4; (m2 mod 4) * 64 + m3]
+  end end end end.
+
+(** [decode_suffix]: the last 1..4 bytes (0 for empty input) *)
+Record sfx := { morsels : list N; pads : nat; first_pad : nat; last_sym : N }.
+
+Fixpoint sfx_loop (url : bool) (off i : nat) (l : bytes) (st : sfx) : sfx + b64_error :=
+  match l with
+  | [] => inl st
+  | b :: t =>
+      if b =? 61 then
+        if Nat.ltb i 2 then inr (InvalidByte (off + i) b)
+        else sfx_loop url off (S i) t
+               {| morsels := morsels st; pads := S (pads st);
+                  first_pad := (if Nat.eqb (pads st) 0 then i else first_pad st);
+                  last_sym := last_sym st |}
+      else if Nat.ltb 0 (pads st) then inr (InvalidByte (off + first_pad st) 61)
+      else
+        match b64_val url b with
+        | None => inr (InvalidByte (off + i) b)
+        | Some v =>
+            sfx_loop url off (S i) t
+              {| morsels := morsels st ++ [v]; pads := pads st; first_pad := first_pad st;
+                 last_sym := b |}
+        end
+  end.
+
+Definition dec_suffix (url canonical : bool) (off : nat) (l : bytes) : bytes + b64_error :=
+  match sfx_loop url off 0 l {| morsels := []; pads := 0; first_pad := 0; last_sym := 0 |} with
+  | inr e => inr e
+  | inl st =>
+      let n := List.length (morsels st) in
+      let m i := nth i (morsels st) 0 in
+      if (match l with [] => false | _ => true end) && Nat.ltb n 2 then inr (InvalidLength (off + n))
+      else if (if canonical then negb (Nat.eqb (Nat.modulo (pads st + n) 4) 0) else Nat.ltb 0 (pads st))
+      then inr InvalidPadding
+      else
+        (* leftover_num & mask: bits of the last symbol that do not reach the output *)
+        match n with
+        | 2%nat => if m 1%nat mod 16 =? 0 then inl [m 0%nat * 4 + m 1%nat / 16]
+                   else inr (InvalidLastSymbol (off + 1) (last_sym st))
+        | 3%nat => if m 2%nat mod 4 =? 0
+                   then inl [m 0%nat * 4 + m 1%nat / 16; (m 1%nat mod 16) * 16 + m 2%nat / 4]
+                   else inr (InvalidLastSymbol (off + 2) (last_sym st))
+        | 4%nat => inl [m 0%nat * 4 + m 1%nat / 16; (m 1%nat mod 16) * 16 + m 2%nat / 4;
+                        (m 2%nat mod 4) * 64 + m 3%nat]
+        | _ => inl []
+        end
+  end.
+
+(** quads that are followed by at least one more byte go through [dec_quad]; the rest
+    (what [complete_quads_len] leaves: len % 4 bytes, or 4 if that is 0) is the suffix *)
+Fixpoint dec_main (url canonical : bool) (off : nat) (l : bytes) : bytes + b64_error :=
+  match l with
+  | a :: b :: c :: d :: ((_ :: _) as t) =>
+      match dec_quad url off a b c d with
+      | inr e => inr e
+      | inl o =>
+          match dec_main url canonical (off + 4) t with
+          | inl r => inl (o ++ r)
+          | inr e => inr e
+          end
+      end
+  | _ => dec_suffix url canonical off l
+  end.
+
+(** len % 4 *)
+Fixpoint len_mod4 (l : bytes) : nat :=
+  match l with
+  | _ :: _ :: _ :: _ :: t => len_mod4 t
+  | [_; _; _] => 3
+  | [_; _] => 2
+  | [_] => 1
+  | [] => 0
+  end.
+
+(** [Engine::decode]: [complete_quads_len]'s "trailing invalid byte" convenience check
+    comes first *)
+Definition b64_decode (url pad : bool) (input : bytes) : bytes + b64_error :=
+  let lastb := last input 0 in
+  if Nat.eqb (len_mod4 input) 1 && negb (lastb =? 61)
+     && (match b64_val url lastb with None => true | Some _ => false end)
+  then inr (InvalidByte (List.length input - 1) lastb)
+  else dec_main url pad 0 input.
+
+(** ---- form_urlencoded::byte_serialize (Serializer::append_pair) ---- *)
+Definition fs_unchanged (b : N) : bool :=
+  is_alnum b || (b =? 42) || (b =? 45) || (b =? 46) || (b =? 95).
+Definition fs_byte (b : N) : bytes :=
+  if fs_unchanged b then [b]
+  else if b =? 32 then [43]
+  else [37; hex_digit (b / 16); hex_digit (b mod 16)].
+Definition byte_serialize (s : bytes) : bytes := flat_map fs_byte s.
+
+(** [Serializer::append_pair] on the query text [q] (text after '?') *)
+Definition append_pair (q k v : bytes) : bytes :=
+  (match q with [] => [] | _ => q ++ [38] end) ++ byte_serialize k ++ [61] ++ byte_serialize v.
+
+(** an already parsed absolute URL: everything before '?', the query, the fragment *)
+Record purl := { u_pre : bytes; u_query : option bytes; u_frag : option bytes }.
+Definition url_string (u : purl) : bytes :=
+  u_pre u ++ (match u_query u with Some q => 63 :: q | None => [] end)
+          ++ (match u_frag u with Some f => 35 :: f | None => [] end).
+
+(** [ParamsMap::get_str] / "the most recently added value" of a key among query pairs *)
+Definition last_value (key : bytes) (pairs : list (bytes * bytes)) : option bytes :=
+  fold_left (fun acc kv => if bytes_eqb (fst kv) key then Some (snd kv) else acc) pairs None.
+
+Definition is_err_key (k : bytes) : bool := bytes_eqb k L_path || bytes_eqb k L_err.
+
+(** [ServerFnUrlError::strip_error_info] on a URL that parses: every pair is decoded and
+    re-serialized, those named __path / __err are dropped; the query becomes [Some] *)
+Definition strip_error_info (u : purl) : purl :=
+  let pairs := form_parse (match u_query u with Some q => q | None => [] end) in
+  let kept := filter (fun kv => negb (is_err_key (fst kv))) pairs in
+  {| u_pre := u_pre u;
+     u_query := Some (fold_left (fun q kv => append_pair q (fst kv) (snd kv)) kept []);
+     u_frag := u_frag u |}.
+
+Section UrlForm.
+  Variable C : Type.
+  Variable cdisplay : C -> bytes.
+  Variable cparse : bytes -> option C.
+
+  (** [ServerFnUrlError::new(path, e).to_url(base)] where [base] parses to [u] *)
+  Definition to_url (u : purl) (path : bytes) (e : sfe C) : purl :=
+    let q0 := match u_query u with Some q => q | None => [] end in
+    {| u_pre := u_pre u;
+       u_query := Some (append_pair (append_pair q0 L_path path) L_err
+                                    (b64_encode true true (ser C cdisplay e)));
+       u_frag := u_frag u |}.
+
+  (** [ServerFnUrlError::decode_err] *)
+  Definition decode_err (s : bytes) : sfe C :=
+    match b64_decode true true s with
+    | inr err => from_server_fn_error (EE KDeserialization (b64_error_display err))
+    | inl data => de C cparse data
+    end.
+
+  (** what the client reads back from the URL it was redirected to:
+      [search_params.get_str("__path")], [get_str("__err")] then [decode_err] *)
+  Definition read_back (u : purl) : option bytes * option (sfe C) :=
+    let pairs := form_parse (match u_query u with Some q => q | None => [] end) in
+    (last_value L_path pairs,
+     match last_value L_err pairs with Some s => Some (decode_err s) | None => None end).
+End UrlForm.
